@@ -10,7 +10,32 @@ from .tlc import MachineryError, run_tlc
 def validate_traces(ctx, name: str, module: str, traces: list, wd: Path, *, constants: str = "",
                     invariants=(), properties=(), spec_init="TInit2", spec_next="TNext", heap="3g", timeout=1800,
                     extra_env=None):
-    """Returns (result, rejected_ids).  rejected = [(0-based trace index, position of the first event that was not matched, 1-based)]."""
+    """Validates in chunks of bounded size (one TLC start each) and merges.  Returns (result, rejected_ids).  rejected = [(0-based trace index, position of the first event that was not matched, 1-based)]."""
+    max_events = 40000
+    if sum(len(t) for t in traces) > max_events and len(traces) > 1:
+        chunks, cur, cnt = [], [], 0
+        for t in traces:
+            if cur and cnt + len(t) > max_events:
+                chunks.append(cur)
+                cur, cnt = [], 0
+            cur.append(t)
+            cnt += len(t)
+        chunks.append(cur)
+        total, rejected, base = None, [], 0
+        for k, ch in enumerate(chunks):
+            r, rej = validate_traces(ctx, f"{name}-{k}", module, ch, wd, constants=constants, invariants=invariants, properties=properties,
+                                     spec_init=spec_init, spec_next=spec_next, heap=heap, timeout=timeout, extra_env=extra_env)
+            rejected += [(i + base, at) for i, at in rej]
+            base += len(ch)
+            if total is None:
+                total = r
+            else:
+                total.generated += r.generated
+                total.distinct += r.distinct
+                total.wall_s += r.wall_s
+                total.depth = max(total.depth, r.depth)
+                total.violated = total.violated or r.violated
+        return total, rejected
     tf = wd / f"{name}.traces.json"
     tf.write_text(json.dumps(traces))
     cfg = [f"INIT {spec_init}", f"NEXT {spec_next}", "CHECK_DEADLOCK FALSE"]
